@@ -12,6 +12,9 @@ From Coq Require Import ZArith Bool List.
 Import ListNotations.
 Local Open Scope Z_scope.
 
+(* 2^k by shifting (linear time; Z.pow multiplies k times) *)
+Definition pow2 (k : Z) : Z := Z.shiftl 1 k.
+
 Record fmt := { prec : Z; ebits : Z }.
 Definition F32 : fmt := {| prec := 24; ebits := 8 |}.
 Definition F64 : fmt := {| prec := 53; ebits := 11 |}.
@@ -37,9 +40,22 @@ Definition decode (f : fmt) (b : Z) : fval :=
   else if ex =? 0 then FFin s ma (emin f)
   else FFin s (2 ^ (prec f - 1) + ma) (ex + emin f - 1).
 
+(* the same decoding with shifts and masks (linear time); equal to decode, see proofs/SFProofs.v *)
+Definition decode_fast (f : fmt) (b : Z) : fval :=
+  let p1 := prec f - 1 in
+  let s := 0 <? Z.shiftr b (width f - 1) in
+  let ex := Z.land (Z.shiftr b p1) (Z.ones (ebits f)) in
+  let ma := Z.land b (Z.ones p1) in
+  if ex =? Z.ones (ebits f) then (if ma =? 0 then FInf s else FNaN)
+  else if ex =? 0 then FFin s ma (emin f)
+  else FFin s (pow2 p1 + ma) (ex + emin f - 1).
+
 Definition sbit (f : fmt) (s : bool) : Z := if s then 2 ^ (width f - 1) else 0.
 Definition inf_bits (f : fmt) (s : bool) : Z := sbit f s + emax_field f * 2 ^ (prec f - 1).
-Definition nan_bits (f : fmt) : Z := emax_field f * 2 ^ (prec f - 1) + 2 ^ (prec f - 2).
+(* the default NaN produced by an invalid operation: sign set, quiet bit set (x86 SSE "real indefinite") *)
+Definition nan_bits (f : fmt) : Z := 2 ^ (width f - 1) + emax_field f * 2 ^ (prec f - 1) + 2 ^ (prec f - 2).
+(* a NaN operand is propagated with its quiet bit set (x86 SSE: the first NaN operand) *)
+Definition quiet (f : fmt) (x : Z) : Z := Z.lor x (2 ^ (prec f - 2)).
 Definition zero_bits (f : fmt) (s : bool) : Z := sbit f s.
 
 (* encode a canonical (m, e): 0 <= m <= 2^prec, e >= emin, and m >= 2^(prec-1) or e = emin *)
@@ -56,14 +72,37 @@ Definition rne_pos (f : fmt) (s : bool) (n d : Z) : Z :=
   let p := prec f in
   let l := Z.log2 n - Z.log2 d in
   let e0 := Z.max (emin f) (l - p) in
-  let scale (e : Z) := if 0 <=? e then (n, d * 2 ^ e) else (n * 2 ^ (- e), d) in
+  let scale (e : Z) := if 0 <=? e then (n, d * pow2 e) else (n * pow2 (- e), d) in
   let '(na, da) := scale e0 in
-  let e := if 2 ^ p <=? na / da then e0 + 1 else e0 in
-  let '(nb, db) := scale e in
-  let q := nb / db in
-  let r := nb mod db in
+  let '(q0, r0) := Z.div_eucl na da in
+  let '(e, q, r, db) :=
+    if pow2 p <=? q0 then
+      let '(nb, db) := scale (e0 + 1) in
+      let '(q1, r1) := Z.div_eucl nb db in (e0 + 1, q1, r1, db)
+    else (e0, q0, r0, da) in
   let up := (db <? 2 * r) || ((db =? 2 * r) && Z.odd q) in
   encode_canon f s (if up then q + 1 else q) e.
+
+(* round-to-nearest-even of the positive dyadic m * 2^e (m > 0) without division *)
+Definition rne_dy_pos (f : fmt) (s : bool) (m e : Z) : Z :=
+  let p := prec f in
+  let l := Z.log2 m + e in                 (* floor(log2 value) *)
+  let e0 := Z.max (emin f) (l - p + 1) in
+  if e0 <=? e then encode_canon f s (Z.shiftl m (e - e0)) e0
+  else
+    let k := e0 - e in
+    let q := Z.shiftr m k in
+    let r := Z.land m (Z.ones k) in
+    let half := pow2 (k - 1) in
+    let up := (half <? r) || ((half =? r) && Z.odd q) in
+    encode_canon f s (if up then q + 1 else q) e0.
+
+Definition rne_dy (f : fmt) (s : bool) (m e : Z) : Z :=
+  if m =? 0 then zero_bits f s else rne_dy_pos f s m e.
+
+Definition rne_dy_signed (f : fmt) (zs : bool) (m e : Z) : Z :=
+  if m =? 0 then zero_bits f zs
+  else if m <? 0 then rne_dy_pos f true (- m) e else rne_dy_pos f false m e.
 
 (* round the signed dyadic/rational  sgn * n / d ;  n >= 0.  zs = sign to give an exact zero *)
 Definition rne (f : fmt) (s : bool) (n d : Z) : Z :=
@@ -83,20 +122,20 @@ Definition is_finite (f : fmt) (b : Z) : bool :=
 Definition sm (s : bool) (m : Z) : Z := if s then - m else m.
 
 (* value of a finite as a fraction num/den with common exponent handling *)
-Definition frac_of (m e : Z) : Z * Z := if 0 <=? e then (m * 2 ^ e, 1) else (m, 2 ^ (- e)).
+Definition frac_of (m e : Z) : Z * Z := if 0 <=? e then (m * pow2 e, 1) else (m, pow2 (- e)).
 
 Definition fadd (f : fmt) (x y : Z) : Z :=
-  match decode f x, decode f y with
-  | FNaN, _ | _, FNaN => nan_bits f
+  match decode_fast f x, decode_fast f y with
+  | FNaN, _ => quiet f x
+  | _, FNaN => quiet f y
   | FInf s1, FInf s2 => if Bool.eqb s1 s2 then inf_bits f s1 else nan_bits f
   | FInf s1, _ => inf_bits f s1
   | _, FInf s2 => inf_bits f s2
   | FFin s1 m1 e1, FFin s2 m2 e2 =>
       let e := Z.min e1 e2 in
-      let M := sm s1 m1 * 2 ^ (e1 - e) + sm s2 m2 * 2 ^ (e2 - e) in
+      let M := sm s1 (Z.shiftl m1 (e1 - e)) + sm s2 (Z.shiftl m2 (e2 - e)) in
       let zs := s1 && s2 in
-      let '(n, d) := frac_of 1 e in
-      rne_signed f zs (M * n) d
+      rne_dy_signed f zs M e
   end.
 
 Definition fneg (f : fmt) (x : Z) : Z :=
@@ -106,23 +145,24 @@ Definition fabs (f : fmt) (x : Z) : Z :=
   if sign_of f x then x - 2 ^ (width f - 1) else x.
 
 Definition fsub (f : fmt) (x y : Z) : Z :=
-  if is_nan f y then nan_bits f else fadd f x (fneg f y).
+  if is_nan f x then quiet f x else if is_nan f y then quiet f y else fadd f x (fneg f y).
 
 Definition fmul (f : fmt) (x y : Z) : Z :=
-  match decode f x, decode f y with
-  | FNaN, _ | _, FNaN => nan_bits f
+  match decode_fast f x, decode_fast f y with
+  | FNaN, _ => quiet f x
+  | _, FNaN => quiet f y
   | FInf s1, FInf s2 => inf_bits f (xorb s1 s2)
   | FInf s1, FFin s2 m2 _ => if m2 =? 0 then nan_bits f else inf_bits f (xorb s1 s2)
   | FFin s1 m1 _, FInf s2 => if m1 =? 0 then nan_bits f else inf_bits f (xorb s1 s2)
   | FFin s1 m1 e1, FFin s2 m2 e2 =>
       let s := xorb s1 s2 in
-      let '(n, d) := frac_of (m1 * m2) (e1 + e2) in
-      rne f s n d
+      rne_dy f s (m1 * m2) (e1 + e2)
   end.
 
 Definition fdiv (f : fmt) (x y : Z) : Z :=
-  match decode f x, decode f y with
-  | FNaN, _ | _, FNaN => nan_bits f
+  match decode_fast f x, decode_fast f y with
+  | FNaN, _ => quiet f x
+  | _, FNaN => quiet f y
   | FInf s1, FInf s2 => nan_bits f
   | FInf s1, FFin s2 _ _ => inf_bits f (xorb s1 s2)
   | FFin s1 _ _, FInf s2 => zero_bits f (xorb s1 s2)
@@ -135,8 +175,8 @@ Definition fdiv (f : fmt) (x y : Z) : Z :=
   end.
 
 Definition fsqrt (f : fmt) (x : Z) : Z :=
-  match decode f x with
-  | FNaN => nan_bits f
+  match decode_fast f x with
+  | FNaN => quiet f x
   | FInf s => if s then nan_bits f else inf_bits f false
   | FFin s m e =>
       if m =? 0 then x
@@ -145,12 +185,11 @@ Definition fsqrt (f : fmt) (x : Z) : Z :=
         (* make the exponent even and the radicand large: S = m * 2^(2k + (e mod 2)) *)
         let par := e mod 2 in
         let k := prec f + 2 in
-        let S := m * 2 ^ (2 * k + par) in
+        let S := m * pow2 (2 * k + par) in
         let e' := (e - par) / 2 - k in
         let r := Z.sqrt S in
         let sticky := if r * r =? S then 0 else 1 in
-        let '(n, d) := frac_of (2 * r + sticky) (e' - 1) in
-        rne f false n d
+        rne_dy f false (2 * r + sticky) (e' - 1)
   end.
 
 (* comparisons (IEEE: NaN unordered, -0 = +0) *)
@@ -164,8 +203,8 @@ Definition fcompare (f : fmt) (x y : Z) : cmp :=
   | _, FInf s2 => if s2 then CGt else CLt
   | FFin s1 m1 e1, FFin s2 m2 e2 =>
       let e := Z.min e1 e2 in
-      let a := sm s1 m1 * 2 ^ (e1 - e) in
-      let b := sm s2 m2 * 2 ^ (e2 - e) in
+      let a := sm s1 m1 * pow2 (e1 - e) in
+      let b := sm s2 m2 * pow2 (e2 - e) in
       if a <? b then CLt else if a =? b then CEq else CGt
   end.
 
@@ -176,25 +215,29 @@ Definition fgt f x y := flt f y x.
 Definition fge f x y := fle f y x.
 
 (* conversions *)
-Definition of_Z (f : fmt) (i : Z) : Z := rne_signed f false i 1.
+Definition of_Z (f : fmt) (i : Z) : Z := rne_dy_signed f false i 0.
 
 Definition convert (f g : fmt) (x : Z) : Z :=
-  match decode f x with
-  | FNaN => nan_bits g
+  match decode_fast f x with
+  | FNaN =>
+      (* sign kept, payload moved to the top of the new mantissa field, quiet bit set *)
+      let pay := mant_of f x in
+      let pay' := if prec g <? prec f then Z.shiftr pay (prec f - prec g) else Z.shiftl pay (prec g - prec f) in
+      quiet g (sbit g (sign_of f x) + emax_field g * 2 ^ (prec g - 1) + pay')
   | FInf s => inf_bits g s
-  | FFin s m e => let '(n, d) := frac_of m e in rne g s n d
+  | FFin s m e => rne_dy g s m e
   end.
 Definition f32_to_f64 := convert F32 F64.
 Definition f64_to_f32 := convert F64 F32.
 
 (* floor / ceil / trunc as floats (sign of zero as Go's math.Floor/Ceil) *)
 Definition ffloor (f : fmt) (x : Z) : Z :=
-  match decode f x with
+  match decode_fast f x with
   | FFin s m e =>
       if (0 <=? e) || (m =? 0) then x
       else
-        let q := sm s m / 2 ^ (- e) in  (* Z.div floors *)
-        rne_signed f s q 1
+        let q := Z.shiftr (sm s m) (- e) in  (* arithmetic shift floors *)
+        rne_dy_signed f s q 0
   | _ => x
   end.
 
@@ -202,8 +245,8 @@ Definition fceil (f : fmt) (x : Z) : Z := fneg f (ffloor f (fneg f x)).
 
 (* truncation toward zero to an integer; None for NaN / Inf *)
 Definition ftrunc (f : fmt) (x : Z) : option Z :=
-  match decode f x with
-  | FFin s m e => Some (if 0 <=? e then sm s (m * 2 ^ e) else sm s (m / 2 ^ (- e)))
+  match decode_fast f x with
+  | FFin s m e => Some (if 0 <=? e then sm s (Z.shiftl m e) else sm s (Z.shiftr m (- e)))
   | _ => None
   end.
 
